@@ -34,6 +34,14 @@
 (*   <<"fileop", n, op, outcome, sent>>  the n-th file-like view returned  *)
 (*                                  by sdram_alloc_as_filelike is read /   *)
 (*                                  written / freed                        *)
+(*   <<"cb", id, ctx>>              a function that the caller registered  *)
+(*                                  with before_close(...) on the context  *)
+(*                                  object of the innermost open block is  *)
+(*                                  called while that block is being left  *)
+(*                                  (commands it calls follow as "invoke"  *)
+(*                                  events; the "exit" event comes after   *)
+(*                                  and carries the datagrams of the leave *)
+(*                                  itself)                                *)
 (* sent = the datagrams put on the wire during the step.                   *)
 (* State st: [stack, objs, up, known, files].                              *)
 (***************************************************************************)
@@ -163,6 +171,10 @@ Checks(e) ==
     [] e[1] = "update" ->
         [UpdateInForce |-> Blind \/ AsSet(e[3]) = Merged(Update(Stk, e[2])),
          NothingSentOnUpdate |-> e[4] = <<>>]
+    \* rig.utils.contexts: before_close "call[s] the given function(s) before this context is exited": the block's
+    \* arguments still apply while the caller's function runs (and to the commands it calls, judged as "invoke").  What
+    \* else the caller registered changes nothing of what "exit" demands: ApplicationExitStops is judged as ever.
+    [] e[1] = "cb" -> [CallbackBeforeExit |-> Len(Stk) > 1 /\ (Blind \/ AsSet(e[3]) = Merged(Stk))]
     [] e[1] = "keepapp" -> [KeptIsApplicationBlock |-> Len(Stk) > 1 /\ TopBlock.app # <<>>]
     [] e[1] = "links" -> [EnvironmentStep |-> TRUE]
     \* a file-like view stands for the chip its sdram_alloc_as_filelike call resolved: whatever blocks are open when
